@@ -157,6 +157,7 @@ def units(tier):
     wrap("C03.build_reactants.transfer_enters_jacobian_and_element_delta_alike", BD.unit_transfer_pairing)
     wrap("C03.quick_setup.refreshes_what_setup_pure_phases_takes_from_the_component", BD.unit_quick_setup_pairing)
     wrap("C03.setup_exchange.capacity_is_the_sum_over_components", BD.unit_setup_exchange_capacity)
+    wrap("C03.build_pure_phases.each_element_charged_to_its_own_balance", BD.unit_mineral_elements)
     return us
 
 
